@@ -19,6 +19,7 @@ import (
 	"strings"
 	"sync"
 	"testing"
+	"testing/synctest"
 	"time"
 
 	"golang.org/x/net/http2/hpack"
@@ -54,8 +55,8 @@ type hsOp struct {
 }
 
 type hsPlan struct {
-	graceful   bool
-	healWUOnly bool
+	graceful     bool
+	healWUOnly   bool
 	focus        string
 	sched        string
 	maxStreams   uint32
@@ -221,7 +222,7 @@ func hsDrawPlan(rt *rapid.T, focus string) *hsPlan {
 			p.ops = append(p.ops, hsOp{kind: "rst", s: c.Intn(opened), code: ErrCode(vs.Pick(c, 8, 0, 2, 5))})
 		case k == 13:
 			p.ops = append(p.ops, hsOp{kind: "ping", n: c.Intn(1 << 16)})
-		case k == 15 && focus == "C08" && opened > 0 && !p.graceful && vs.Pct(c, 40):
+		case k == 15 && (focus == "C08" || focus == "C15") && (opened > 0 || focus == "C15") && !p.graceful && vs.Pct(c, 40):
 			// graceful shutdown in mid-run: GOAWAY(NO_ERROR) from the client, or the
 			// server's own Shutdown; streams already open must still be served
 			p.graceful = true
@@ -329,18 +330,19 @@ type hsRun struct {
 	ackedSrvSet  bool
 	goAway       bool
 	goAwayCode   ErrCode
-	gracefulSent bool // graceful shutdown started by the harness (client GOAWAY(NO_ERROR) or server Shutdown)
-	srvGraceful  bool // the server's GOAWAY(NO_ERROR) was seen
+	gracefulLast uint32 // last-stream-id of the server's graceful GOAWAY
+	gracefulSent bool   // graceful shutdown started by the harness (client GOAWAY(NO_ERROR) or server Shutdown)
+	srvGraceful  bool   // the server's GOAWAY(NO_ERROR) was seen
 	srvClosed    bool
 
 	// client -> server ledgers
-	cSettings  []hsSettings
-	connWU     []hsWU
-	cSentFlow  int64 // flow-controlled bytes sent by the client (connection)
-	pings      [][8]byte
-	pingEnd    []int64
-	pingAcks   [][8]byte
-	srvAcks    int
+	cSettings []hsSettings
+	connWU    []hsWU
+	cSentFlow int64 // flow-controlled bytes sent by the client (connection)
+	pings     [][8]byte
+	pingEnd   []int64
+	pingAcks  [][8]byte
+	srvAcks   int
 	// server -> client
 	sConnFlow int64 // flow-controlled bytes sent by the server
 	sConnWU   int64 // sum of WINDOW_UPDATE(0) sent by the server
@@ -820,6 +822,7 @@ func (r *hsRun) doOp(op hsOp) {
 		// may cross the server's GOAWAY (it would be ignored, legitimately)
 		r.mu.Unlock()
 		r.conn.DeliverAll()
+		synctest.Wait() // the server has read and dispatched everything delivered
 		r.mu.Lock()
 		if r.goAway || r.srvClosed {
 			return
@@ -1020,6 +1023,7 @@ func (r *hsRun) onServerFrame(f *vmFrame) *vs.Violation {
 			// the answer to the graceful shutdown the harness started: streams up to
 			// last-stream-id (all of ours: nothing was in flight) are still served
 			r.srvGraceful = true
+			r.gracefulLast = (uint32(f.Payload[0])<<24 | uint32(f.Payload[1])<<16 | uint32(f.Payload[2])<<8 | uint32(f.Payload[3])) & 0x7fffffff
 			break
 		}
 		r.goAway = true
@@ -1465,6 +1469,9 @@ func (r *hsRun) final(sim *vs.Sim, harness *string) *vs.Violation {
 	}
 	// C15: malformed requests were rejected
 	for _, st := range r.streams {
+		if r.srvGraceful && st.id > r.gracefulLast {
+			continue // above the GOAWAY's last-stream-id: the server may ignore it altogether
+		}
 		if st.opened && st.op.bad != "" && !st.rstSent {
 			rejected := st.srvRst || (st.respHdr && st.respStatus >= 400 && st.respStatus < 500 && st.srvEnd)
 			if !rejected {
